@@ -313,6 +313,9 @@ void OPN2::noteOn(size_t c, double tone)
     }
     hertz *= coef;
 
+    if(!(hertz <= std::numeric_limits<double>::max())) // Avoid infinite loop on +inf (and NaN)
+        return;
+
     size_t      chip;
     uint8_t     port;
     uint32_t    cc;
